@@ -107,6 +107,7 @@ Definition head_text_kept (ch ch' : list xnode) : Prop :=
 (** C18 at full strength *)
 Definition fins : xnode -> xnode -> Prop := ins_gen (fun f => foreign_elem f = true) (fun _ _ => True).
 Definition fins_doc : xdoc -> xdoc -> Prop := ins_doc_gen (fun f => foreign_elem f = true) (fun _ _ => True).
+Definition insert_foreign : xdoc -> xdoc -> Prop := fins_doc.
 
 (** the restriction under which extraction is unchanged (the namespace of the inserted elements
     does not matter) *)
